@@ -460,3 +460,19 @@ Example C01_ex_exported_plans :
    converged ex_d1 ex_hcl)
   = (2, 1, 0, true, true, true).
 Proof. vm_compute. reflexivity. Qed.
+
+(** *** round 5: where the exported scenario fails.  d1 = users(id, email UNIQUE) + CREATE INDEX users_email ON
+    users(email): a valid database; its export lists sqlite_autoindex_users_1 and users_email; [normalizeIdxName]
+    makes up the name users_email for the first, and the plan for an EMPTY database is CREATE TABLE, CREATE UNIQUE
+    INDEX users_email, CREATE INDEX users_email: "index users_email already exists".  The renaming is stable
+    ([stable_b]), the renamed schema has two indexes of one name, so it is outside [supported_exported].
+    Reproduced through the real CLI (known finding C01-exported-made-up-index-name-clash). *)
+Definition ex_clash_d1 : db :=
+  mkDB [mkCT (mkX (mkTable n_users false false [col n_id T_integer 2 false; col n_email T_text 3 true]
+                     (Some (pk_of [cpart 1 n_id false]))
+                     [mkIndex (n_users ++ [95]%N ++ n_email) false [cpart 1 n_email false] None None None] [] []) []) [[n_email]] []] false false.
+Theorem C01_converges_from_exported_hcl_refuted_name_clash :
+  exists d1 B, hcl_roundtrip (inspect d1) = ROk B /\ stable_b B = true /\ db_ok_b empty_db = true /\
+    apply_plan nm empty_db B = Some (Err EExists) /\ supported_exported empty_db B = false.
+Proof. exists ex_clash_d1. eexists. split; [vm_compute; reflexivity|]. vm_compute. repeat split; reflexivity. Qed.
+Print Assumptions C01_converges_from_exported_hcl_refuted_name_clash.
